@@ -92,7 +92,7 @@ func eventTimeBufferScenario(r *Run) {
 	var got []Msg
 	pos := 0
 	observe := func(m Msg) {
-		r.Log("  out %s", m)
+		r.SinkLog("  out %s", m)
 		got = append(got, m)
 		if pos >= len(expect) {
 			r.Violate("C18", "buffer_order", attrs, "during delivery %d the buffer emitted %s, nothing was due", delivering, m)
@@ -212,7 +212,7 @@ func pipelineScenario(r *Run, mode string) {
 	var lastWM time.Time
 	nOut := 0
 	produce := func(ctx execution.ProduceContext, rec execution.Record) error {
-		r.Log("  out %s", Msg{Kind: MsgRec, Values: rec.Values, Retr: rec.Retraction, ET: rec.EventTime})
+		r.SinkLog("  out %s", Msg{Kind: MsgRec, Values: rec.Values, Retr: rec.Retraction, ET: rec.EventTime})
 		nOut++
 		if mode == "C18" && !rec.EventTime.IsZero() && !lastWM.IsZero() && !rec.EventTime.After(lastWM) {
 			a := cloneAttrs(attrs)
@@ -225,7 +225,7 @@ func pipelineScenario(r *Run, mode string) {
 		return nil
 	}
 	metaSend := func(ctx execution.ProduceContext, msg execution.MetadataMessage) error {
-		r.Log("  out wm(%s)", Sec(msg.Watermark))
+		r.SinkLog("  out wm(%s)", Sec(msg.Watermark))
 		nOut++
 		if mode == "C18" && msg.Watermark.Before(lastWM) {
 			r.Violate("C18", "watermark_regressed", attrs, "watermark %s emitted after %s", Sec(msg.Watermark), Sec(lastWM))
